@@ -78,6 +78,35 @@ Scaled(l) ==
             IF n % p # 0 \/ n \div p >= 16777216 THEN <<"no", 0>>
             ELSE <<"yes", (IF l.neg THEN -1 ELSE 1) * (n \div p)>>
 
+\* Long decimals a hair above / below the midpoint between two neighbouring f32 values (25-28
+\* significant digits): the written coordinate is the NEAREST f32, which a conversion through f64
+\* gets wrong (it lands on the midpoint and then ties to even).  A table, generated with exact
+\* rational arithmetic (DESIGN, C14): <<literal, expected f32 as <<class, sign, significand, exponent>>>>
+HardLits == <<
+  <<<<49, 46, 48, 48, 48, 48, 48, 48, 48, 53, 57, 54, 48, 52, 54, 52, 52, 55, 55, 53, 51, 57, 48, 54, 50, 53, 49>>, <<1, 0, 8388609, -23>>>>,
+  <<<<49, 46, 48, 48, 48, 48, 48, 48, 48, 53, 57, 54, 48, 52, 54, 52, 52, 55, 55, 53, 51, 57, 48, 54, 50, 52, 57>>, <<1, 0, 8388608, -23>>>>,
+  <<<<49, 46, 48, 48, 48, 48, 48, 48, 49, 55, 56, 56, 49, 51, 57, 51, 52, 51, 50, 54, 49, 55, 49, 56, 55, 53, 49>>, <<1, 0, 8388610, -23>>>>,
+  <<<<49, 46, 48, 48, 48, 48, 48, 48, 49, 55, 56, 56, 49, 51, 57, 51, 52, 51, 50, 54, 49, 55, 49, 56, 55, 52, 57>>, <<1, 0, 8388609, -23>>>>,
+  <<<<50, 46, 53, 48, 48, 48, 48, 48, 49, 49, 57, 50, 48, 57, 50, 56, 57, 53, 53, 48, 55, 56, 49, 50, 53, 49>>, <<1, 0, 10485761, -22>>>>,
+  <<<<50, 46, 53, 48, 48, 48, 48, 48, 49, 49, 57, 50, 48, 57, 50, 56, 57, 53, 53, 48, 55, 56, 49, 50, 52, 57>>, <<1, 0, 10485760, -22>>>>,
+  <<<<48, 46, 49, 53, 54, 50, 53, 48, 48, 48, 55, 52, 53, 48, 53, 56, 48, 53, 57, 54, 57, 50, 51, 56, 50, 56, 49, 50, 53, 49>>, <<1, 0, 10485761, -26>>>>,
+  <<<<48, 46, 49, 53, 54, 50, 53, 48, 48, 48, 55, 52, 53, 48, 53, 56, 48, 53, 57, 54, 57, 50, 51, 56, 50, 56, 49, 50, 52, 57>>, <<1, 0, 10485760, -26>>>>,
+  <<<<49, 48, 48, 48, 46, 48, 48, 48, 48, 51, 48, 53, 49, 55, 53, 55, 56, 49, 50, 53, 49>>, <<1, 0, 16384001, -14>>>>,
+  <<<<49, 48, 48, 48, 46, 48, 48, 48, 48, 51, 48, 53, 49, 55, 53, 55, 56, 49, 50, 52, 57>>, <<1, 0, 16384000, -14>>>>,
+  <<<<50, 46, 57, 57, 57, 57, 57, 57, 56, 56, 48, 55, 57, 48, 55, 49, 48, 52, 52, 57, 50, 49, 56, 55, 53, 49>>, <<1, 0, 12582912, -22>>>>,
+  <<<<50, 46, 57, 57, 57, 57, 57, 57, 56, 56, 48, 55, 57, 48, 55, 49, 48, 52, 52, 57, 50, 49, 56, 55, 52, 57>>, <<1, 0, 12582911, -22>>>>,
+  <<<<45, 49, 46, 48, 48, 48, 48, 48, 48, 48, 53, 57, 54, 48, 52, 54, 52, 52, 55, 55, 53, 51, 57, 48, 54, 50, 53, 49>>, <<1, 1, 8388609, -23>>>>,
+  <<<<45, 49, 46, 48, 48, 48, 48, 48, 48, 48, 53, 57, 54, 48, 52, 54, 52, 52, 55, 55, 53, 51, 57, 48, 54, 50, 52, 57>>, <<1, 1, 8388608, -23>>>>,
+  <<<<45, 49, 46, 48, 48, 48, 48, 48, 48, 49, 55, 56, 56, 49, 51, 57, 51, 52, 51, 50, 54, 49, 55, 49, 56, 55, 53, 49>>, <<1, 1, 8388610, -23>>>>,
+  <<<<45, 49, 46, 48, 48, 48, 48, 48, 48, 49, 55, 56, 56, 49, 51, 57, 51, 52, 51, 50, 54, 49, 55, 49, 56, 55, 52, 57>>, <<1, 1, 8388609, -23>>>>,
+  <<<<48, 46, 49, 56, 55, 53, 48, 48, 48, 50, 50, 51, 53, 49, 55, 52, 49, 55, 57, 48, 55, 55, 49, 52, 56, 52, 51, 55, 53, 49>>, <<1, 0, 12582914, -26>>>>,
+  <<<<48, 46, 49, 56, 55, 53, 48, 48, 48, 50, 50, 51, 53, 49, 55, 52, 49, 55, 57, 48, 55, 55, 49, 52, 56, 52, 51, 55, 52, 57>>, <<1, 0, 12582913, -26>>>>,
+  <<<<49, 50, 51, 46, 48, 48, 48, 48, 48, 51, 56, 49, 52, 54, 57, 55, 50, 54, 53, 54, 50, 53, 49>>, <<1, 0, 16121857, -17>>>>,
+  <<<<49, 50, 51, 46, 48, 48, 48, 48, 48, 51, 56, 49, 52, 54, 57, 55, 50, 54, 53, 54, 50, 52, 57>>, <<1, 0, 16121856, -17>>>>
+>>
+HardIdxOf(t) == LET S == {i \in 1..Len(HardLits) : HardLits[i][1] = t} IN IF S = {} THEN 0 ELSE CHOOSE i \in S : TRUE
+HardMark == 1000000000          \* a coordinate given by table entry i is carried as -(HardMark + i)
+
 CoordOk(t) == LET l == Lit(t) IN l.ok /\ Scaled(l)[1] = "yes"
 Coord(t) == Scaled(Lit(t))[2]
 
@@ -100,6 +129,9 @@ Item(line) ==
   ELSE IF tk[1][1] = 35 THEN <<"comment">>
   ELSE IF tk[1] = <<118>> /\ Len(tk) = 4 /\ \A i \in 2..4 : CoordOk(tk[i])
        THEN <<"v", <<Coord(tk[2]), Coord(tk[3]), Coord(tk[4])>>>>
+  \* a vertex with table literals: the other coordinates are written "0"
+  ELSE IF tk[1] = <<118>> /\ Len(tk) = 4 /\ \A i \in 2..4 : (tk[i] = <<48>> \/ HardIdxOf(tk[i]) # 0)
+       THEN <<"v", [i \in 1..3 |-> IF tk[i + 1] = <<48>> THEN 0 ELSE -(HardMark + HardIdxOf(tk[i + 1]))]>>
   ELSE IF tk[1] = <<118, 110>> /\ Len(tk) = 4 /\ \A i \in 2..4 : Lit(tk[i]).ok THEN <<"vn">>
   ELSE IF tk[1] = <<118, 116>> /\ Len(tk) = 3 /\ \A i \in 2..3 : Lit(tk[i]).ok THEN <<"vt">>
   ELSE IF tk[1] = <<102>> /\ Len(tk) = 4 /\ \A i \in 2..4 : Group(tk[i]).ok
@@ -145,7 +177,12 @@ Allowed(e) ==
        /\ res[1] = "ok"
        /\ Len(res[2]) = Len(p.verts)
        /\ \A k \in 1..Len(p.verts) :
-            res[2][k] = <<1, p.verts[k][1], p.verts[k][2], p.verts[k][3]>>
+            IF \A c \in 1..3 : p.verts[k][c] > -HardMark
+            THEN res[2][k] = <<1, p.verts[k][1], p.verts[k][2], p.verts[k][3]>>
+            ELSE \* table literals: the coordinate is bit for bit the expected f32 (e.vb: f32 records)
+                 \A c \in 1..3 :
+                   IF p.verts[k][c] > -HardMark THEN e.vb[k][c] = <<0, 0, 0, 0>>
+                   ELSE e.vb[k][c] = HardLits[-p.verts[k][c] - HardMark][2]
        /\ Len(res[3]) = Len(p.faces)
        /\ \A k \in 1..Len(p.faces) :
             res[3][k] = <<p.faces[k][1].pos - 1, p.faces[k][2].pos - 1, p.faces[k][3].pos - 1>>
